@@ -402,8 +402,10 @@ class Emitter(object):
         k = S["kind"]
         if k == SK["sub"]:
             return
+        smptr = S.get("smptr") and not self.mp and k == SK["simple"] and self.v["front"] not in ("R2", "E")
         if k == SK["simple"]:
-            bases = "msm::front::state<>"
+            # sm_ptr policy (back / back11): the state is handed a pointer to its machine
+            bases = "msm::front::state<msm::front::default_base_state, msm::front::sm_ptr>" if smptr else "msm::front::state<>"
             if S["explicit"]:
                 bases += ", msm::front::explicit_entry<%d>" % S["region"]
         elif k == SK["terminate"]:
@@ -427,6 +429,16 @@ class Emitter(object):
             w("  static constexpr int SIM_SITE = %d; int sim_data = 0;" % S["index"])
             w("  template <class Ar> void serialize(Ar& ar, const unsigned int) { ar & sim_data; }")
             self.emit_row_function_decls([n.rows[r] for r in n.machines[S["machine"]]["rows"] if n.rows[r]["src"] == S["index"]])
+        elif smptr:
+            # the pointer the library stored must belong to the replica this state object lives in (C15): otherwise the
+            # behaviours report the machine it points to as "self"
+            w("  const void* sim_sm = nullptr;")
+            w("  template <class Fsm> void set_sm_ptr(Fsm* p) { sim_sm = p; }")
+            w("  const void* sim_who() const { auto& en = sim::env(); return (sim_sm && en.replica_of(sim_sm) != en.replica_of(this)) ? sim_sm : (const void*)this; }")
+            w("  template <class E, class F> void on_entry(E const& e, F& f) { sim::hook_entry(%d, e, f, sim_who()); }" % S["index"])
+            w("  template <class E, class F> void on_exit(E const& e, F& f) { sim::hook_exit(%d, e, f, sim_who()); }" % S["index"])
+            w("  static constexpr int SIM_SITE = %d; int sim_data = 0;" % S["index"])
+            w("  template <class Ar> void serialize(Ar& ar, const unsigned int) { ar & sim_data; }")
         else:
             w("  SIM_STATE_BODY(%d)" % S["index"])
         if S["has_data"]:
